@@ -10,7 +10,7 @@ DATA = 0x100000
 DATA_LEN = 0x48000          # 288 KiB of patterned device memory
 
 
-def build(max_cmd, max_ack, ops, pend=None, retry=None, resp_ms=5, addr_base=DATA, data_len=None):
+def build(max_cmd, max_ack, ops, pend=None, retry=None, resp_ms=5, addr_base=DATA, data_len=None, busy=None):
     """ops: list of ('r', addr, n) | ('w', addr, n, seed).  pend: list of pending counts per
     transaction after open (cycled)."""
     w = std_world(max_cmd, max_ack, resp_ms)
@@ -53,7 +53,13 @@ def build(max_cmd, max_ack, ops, pend=None, retry=None, resp_ms=5, addr_base=DAT
         wtoks += [6, ntx_open]
         for k in range(ntx):
             p = pend[k % len(pend)]
-            wtoks += [5, -1, p + 1] + [0, 1] * p + [1, 0]
+            if busy:
+                # a device that really is busy: every pending acknowledge announces `announce` ms and the device stays
+                # silent for `silent` (< announce) real milliseconds afterwards - longer than the response time
+                announce, silent = busy
+                wtoks += [5, -1, 2 * p + 1] + [0, announce, 4, silent] * p + [1, 0]
+            else:
+                wtoks += [5, -1, p + 1] + [0, 1] * p + [1, 0]
     meta = dict(max_cmd=max_cmd, max_ack=max_ack, ops=ops, expect=expect, ntx=ntx, pend=pend or [], retry=retry)
     return ctl_case(wtoks, optoks, meta)
 
@@ -282,6 +288,11 @@ def gen_cases(ck):
             cases.append(build(64, 64, [("r", DATA + 5, 130), ("w", DATA + 9, 100, 3), ("r", DATA, 200)],
                                pend=[p], retry=None if retry == 3 else retry))
     cases.append(build(40, 40, [("r", DATA + 5, 300), ("w", DATA + 9, 200, 3)], pend=[0, 1, 2, 0, 2]))
+    # pending acknowledges that MEAN it: the device announces more time than the maximum response time and uses most
+    # of it (real time; the fake transport keeps silent meanwhile).  The announced time replaces the response time:
+    # the transfer must succeed.  (One-sided timing: a slow machine only makes the host later, never too early.)
+    cases.append(build(64, 64, [("r", DATA + 5, 40), ("w", DATA + 9, 30, 3)], pend=[1], resp_ms=40, busy=(400, 300)))
+    cases.append(build(64, 64, [("r", DATA + 5, 40)], pend=[2], resp_ms=30, busy=(250, 200)))
     # pending acknowledges (16 bytes) on the shortest data acknowledges: whole reads of 1..3 bytes and tail chunks of
     # 1..3 bytes, single-byte writes
     for p in (1, 2):
